@@ -473,6 +473,12 @@ def check_definedness(unit, ctx, res, rng):
         if fails:
             res['violations'].append(_write_replay(unit, env, fails, 'definedness: a divisor vanishes inside the stated domain'))
             return
+        # the code divided by zero and still returned finite numbers (a masked 0/0): are they right?
+        hit = _finite_but_wrong(unit, ctx, n, env, rng)
+        if hit is not None:
+            res['violations'].append(_write_replay(unit, hit[0], hit[1], 'definedness: a divisor vanishes inside the stated domain and '
+                                                   'the (finite) result there is wrong'))
+            return
         res['definedness_benign'] = res.get('definedness_benign', 0) + 1
     # arguments of log / sqrt / real powers taken by the code must be positive on the domain
     seen = set()
@@ -505,6 +511,53 @@ def check_definedness(unit, ctx, res, rng):
             res['violations'].append(_write_replay(unit, env, fails, 'definedness: log/sqrt/real power of a non-positive value inside the stated domain'))
             return
         res['definedness_benign'] = res.get('definedness_benign', 0) + 1
+
+
+def _vars_of(n, acc=None):
+    acc = set() if acc is None else acc
+    stack, seen = [n], set()
+    while stack:
+        m = stack.pop()
+        if id(m) in seen:
+            continue
+        seen.add(id(m))
+        if getattr(m, 'op', None) == 'var':
+            acc.add(m.a[0])
+        for c in getattr(m, 'a', ()):
+            if hasattr(c, 'op'):
+                stack.append(c)
+    return acc
+
+
+def _finite_but_wrong(unit, ctx, n, model_env, rng):
+    """points where the divisor n vanishes (the variables it mentions keep the solver's values, all
+    others are re-sampled inside the domain): if the float code returns finite values that miss a
+    finite oracle value grossly at EVERY such point (3 of 3), the masked division is a defect"""
+    names = [nm for nm in _vars_of(n) if nm in model_env]
+    if not names:
+        return None
+    last = None
+    for t in range(3):
+        base = _random_point(ctx, rng)
+        if base is None:
+            return None
+        env = dict(base)
+        for nm in names:
+            env[nm] = model_env[nm]
+        try:
+            for nm, fn in ctx.derived:
+                env[nm] = fn(env)
+        except Exception:
+            return None
+        fctx, st = run_float(unit, env)
+        if st != 'ok' or fctx is None:
+            return None
+        fails = [f for f in fctx.float_failures if _gross_failure(f) and not _nonfinite_failure(f)
+                 and 'nan' not in str(f[1]) and 'inf' not in str(f[1]) and f[0] != 'exception']
+        if not fails:
+            return None
+        last = (env, fails)
+    return last
 
 
 def _gross_failure(f):
